@@ -25,6 +25,33 @@ def setup():
     return 0
 
 
+def audit():
+    """Whole-development audit: forbidden vernacular in the sources, a full build, and coqchk over every property file
+    (an independent re-check of the compiled files with the list of axioms they rely on)."""
+    import re
+    import subprocess
+    bad = []
+    pat = re.compile(r"\b(Admitted|admit|Axiom|Axioms|Parameter|Parameters|Conjecture|Admit Obligations)\b|Unset Guard|bypass_check|Unset Positivity|Unset Universe Checking|type-in-type|impredicative-set")
+    for root, _d, files in os.walk(os.path.join(C.COQ)):
+        for f in files:
+            if f.endswith(".v") or f == "_CoqProject":
+                for n, line in enumerate(open(os.path.join(root, f), errors="replace"), 1):
+                    code = re.sub(r"\(\*.*?\*\)", "", line)
+                    if pat.search(code) and not code.lstrip().startswith("(*"):
+                        bad.append("%s:%d: %s" % (os.path.join(root, f), n, line.strip()[:120]))
+    print("forbidden vernacular: %d occurrence(s)" % len(bad))
+    for b in bad[:20]:
+        print("  " + b)
+    setup()
+    mods = sorted("Verif.Props." + f[:-2] for f in os.listdir(os.path.join(C.COQ, "theories", "Props")) if f.endswith(".v"))
+    p = subprocess.run(["coqchk", "-silent", "-o"] + C.COQ_ARGS + mods, cwd=C.COQ, stdout=subprocess.PIPE, stderr=subprocess.STDOUT, text=True, timeout=7200)
+    tail = p.stdout[p.stdout.find("CONTEXT SUMMARY"):] if "CONTEXT SUMMARY" in p.stdout else p.stdout[-3000:]
+    print(tail)
+    ok = p.returncode == 0 and "* Axioms: <none>" in p.stdout and not bad
+    print("audit: %s" % ("ok" if ok else "FAILED"))
+    return 0 if ok else 1
+
+
 def main():
     ap = argparse.ArgumentParser()
     ap.add_argument("prop")
@@ -33,6 +60,8 @@ def main():
     a = ap.parse_args()
     if a.prop == "setup":
         return setup()
+    if a.prop == "audit":
+        return audit()
     m = importlib.import_module("vcheck." + a.prop.lower())
     if a.replay:
         return m.replay(a.replay)
